@@ -85,7 +85,13 @@ pub fn fault_leaf(env: &mut Env, leaf: &Leaf, damage_variant: bool) {
         let n_calls = counts[kind as usize];
         for nth in 0..n_calls {
             for forever in [false, true] {
-                for (ek, ek_name) in error_kinds() {
+                let mut kinds = error_kinds();
+                if matches!(kind, CallKind::Read) && nth == 0 && !forever {
+                    // The first block of the oldest file is the one place where the crate reports a
+                    // short read as an I/O error (later short files mean "no more blocks").
+                    kinds.push((std::io::ErrorKind::UnexpectedEof, "UnexpectedEof(first read only)"));
+                }
+                for (ek, ek_name) in kinds {
                     env.stats.evaluations += 1;
                     env.stats.transitions += 1;
                     set_image(&dir, &image);
